@@ -49,6 +49,7 @@ def abstract_result(I, like, suffix, appends_line=True):
                     max_volume=like.fields['max_volume'], instructions=text,
                     experimental_conditions={})
     o.__dict__['produced'] = True
+    clib.init_defaults(I, o)
     return o
 
 
@@ -322,6 +323,8 @@ def run_transfer(pid, mode, ga, gb=None):
         res += vc.discharge(I, 'plate.transfer/', case, 10000,
                             replay_fn=lambda mv, ob: transfer_replay(mode, ga, gb, ob.name))
     res = clib.dedupe(res)
+    clause = {'C04': 'frame', 'C19': 'instructions-home'}.get(pid, 'linear')
+    res = clib.native_fallback(res, f'plate.transfer/{clause}', case, transfer_replay(mode, ga, gb, clause))
     return [dict(r, name=f'{pid}/' + r['name']) for r in res]
 
 
@@ -547,6 +550,8 @@ def run_unary(pid, op, g, via):
         I.obls = [ob for ob in I.obls if ob.kind != 'property' or serves(ob.name, pid)]
         res += vc.discharge(I, f'plate.{op}/', case, 10000, replay_fn=lambda mv, ob: unary_replay(op, g, via, ob.name))
     res = clib.dedupe(res)
+    clause = 'frame' if pid == 'C04' else 'per-well'
+    res = clib.native_fallback(res, f'plate.{op}/{clause}', case, unary_replay(op, g, via, clause))
     return [dict(r, name=f'{pid}/' + r['name']) for r in res]
 
 
